@@ -419,6 +419,9 @@ def rule_r5(p, res):
         raise AnalysisError("C12.R5: only %d covariance stores found in the create routines (floor 4)" % stores)
 
 
+# rules of sibling properties over code paths this property's statement also quantifies over (DESIGN.md section 3, shared rules)
+ALSO = ['C11.R2', 'C11.R3', 'C11.R4']
+
 RULES = [rule_r1, rule_r2, rule_r3, rule_r4, rule_r5]
 
 WITNESSES = [
